@@ -117,6 +117,33 @@ def job(cfg):
                     events.append({"op": "terms", "c": root, "n": n, "terms": terms_list(new.get_terms(n))})
                 except Exception as e:
                     events.append({"op": "terms", "c": root, "n": n, "terms": [[[-7], 1]], "error": type(e).__name__})
+        # one verified class expanded through expand_comb_class, named by its label and by an equal class object
+        from comb_spec_searcher.exception import SpecificationNotFound
+        target = next(iter(spec.unexpanded_verified_classes()))
+        for how, arg in (("label", spec.get_label(target)), ("equal-object", target.with_())):
+            ev1 = {"op": "expand_one", "how": how, "root_old": s.namer(spec.root), "root_new": "", "target": s.namer(target),
+                   "target_still_verified": False, "shared": 0, "old_before": before, "old_after": "", "raised": ""}
+            one = None
+            try:
+                tpack = spec.rules_dict[target].pack()
+                try:
+                    one = spec.expand_comb_class(arg, tpack, reverse=False, continue_expanding_verified=False)
+                except SpecificationNotFound:
+                    one = spec.expand_comb_class(arg, tpack, reverse=True, continue_expanding_verified=True)
+            except Exception as e:
+                ev1["raised"] = type(e).__name__ + ":" + str(e)[:160]
+            ev1["old_after"] = digest(spec, s.namer, pack, offers)
+            if one is not None:
+                ev1["root_new"] = s.namer(one.root)
+                r1 = one.rules_dict.get(target)
+                if isinstance(r1, VerificationRule):
+                    try:
+                        r1.pack()
+                        ev1["target_still_verified"] = True
+                    except InvalidOperationError:
+                        pass
+                ev1["shared"] = len(rule_ids(one) & ids_before)
+            events.append(ev1)
         tr = s.spec_trace(tid, events)
         tr["pack"] = allids
         tr["nverified"] = nver
